@@ -86,11 +86,29 @@ def _gate2(node, a, b):
     return (a, b)
 
 
+def _gate3(node, a, b, c):
+    st = STATE
+    st.calls += 1
+    mode = st.armed.get(node)
+    if mode is not None:
+        st.fired.append((node, mode))
+        if mode == "raise":
+            raise InjectedFault("armed gate at node %d" % node)
+        return BAD
+    a, b, c = _unbox(a), _unbox(b), _unbox(c)
+    if isinstance(a, np.ndarray):
+        return np.stack([a, b, c], axis=1)
+    return (a, b, c)
+
+
 def make_lambda(node, field):
     """A fresh lambda reading one record field through the gate."""
     if field == "xy":
         src = 'lambda d: _gate2(%d, d["x"], d["y"])' % node
         return eval(src, {"_gate2": _gate2})
+    if field == "xyc":
+        src = 'lambda d: _gate3(%d, d["x"], d["y"], d["c"])' % node
+        return eval(src, {"_gate3": _gate3})
     src = 'lambda d: _gate(%d, d["%s"])' % (node, field)
     return eval(src, {"_gate": _gate})
 
@@ -100,6 +118,9 @@ def make_def(node, field, fname):
     if field == "xy":
         ns = {"_gate2": _gate2}
         exec('def %s(d):\n    return _gate2(%d, d["x"], d["y"])\n' % (fname, node), ns)
+    elif field == "xyc":
+        ns = {"_gate3": _gate3}
+        exec('def %s(d):\n    return _gate3(%d, d["x"], d["y"], d["c"])\n' % (fname, node), ns)
     else:
         ns = {"_gate": _gate}
         exec('def %s(d):\n    return _gate(%d, d["%s"])\n' % (fname, node, field), ns)
